@@ -68,28 +68,54 @@ theorem attach_eq {σ : Store} {w y : Node} (h1 : σ.live w = true) (h2 : σ.liv
 
 
 theorem baseCtorMove_eq {σ : Store} {w y : Node} (h1 : σ.live y = true) (h2 : σ.live (σ.prev y) = true)
-    (h3 : σ.live (σ.next y) = true) (hw : σ.live w = false) : baseCtorMove σ w y = .ok (ctorMoveS σ w y) := by
+    (h3 : σ.live (σ.next y) = true) (hw : σ.live w = false) (hlinked : σ.next y ≠ y) :
+    baseCtorMove σ w y = .ok (ctorMoveS σ w y) := by
   have e1 : y ≠ w := fun e => by rw [e, hw] at h1; exact Bool.noConfusion h1
   have e2 : σ.prev y ≠ w := fun e => by rw [e, hw] at h2; exact Bool.noConfusion h2
   have e3 : σ.next y ≠ w := fun e => by rw [e, hw] at h3; exact Bool.noConfusion h3
   simp only [baseCtorMove, rdNext, rdPrev, bind, Except.bind, h1, ite_true]
+  have hn : (σ.alloc w (σ.prev y) (σ.next y)).next w = σ.next y := by simp [Store.alloc]
+  have hl : (σ.alloc w (σ.prev y) (σ.next y)).live w = true := by simp [Store.alloc]
+  simp only [hl, hn, hlinked, ite_true, ite_false]
   rw [attach_eq (by simp [Store.alloc]) (by simp [Store.alloc, e2, h2]) (by simp [Store.alloc, e3, h3])
     (by simp [Store.alloc, e1, h1]) (by simp [Store.alloc, e2])]
   simp [takeS', ctorMoveS, takeS, link, Store.alloc, Store.mkLive, Store.setPrev, Store.setNext]
+  store_eq
+
+/-- `base(base&&)` from an unlinked source: the new element is unlinked, the source is untouched -/
+theorem baseCtorMove_alone {σ : Store} {w y : Node} (h1 : σ.live y = true) (hw : σ.live w = false)
+    (halone : σ.next y = y) : baseCtorMove σ w y = .ok (σ.alloc w w w) := by
+  simp only [baseCtorMove, rdNext, rdPrev, bind, Except.bind, h1, ite_true]
+  have hn : (σ.alloc w (σ.prev y) (σ.next y)).next w = σ.next y := by simp [Store.alloc]
+  have hl : (σ.alloc w (σ.prev y) (σ.next y)).live w = true := by simp [Store.alloc]
+  simp only [hl, hn, halone, ite_true, wrPrev, wrNext, Store.setPrev, Store.setNext]
+  simp [Store.alloc]
   store_eq
 
 theorem baseAssignMove_eq {σ : Store} {w y : Node} (hne : y ≠ w)
     (h1 : σ.live w = true) (h2 : σ.live y = true) (h3 : σ.live (σ.next w) = true) (h4 : σ.live (σ.prev w) = true)
     (h5 : σ.live ((link σ (σ.prev w) (σ.next w)).prev y) = true)
     (h6 : σ.live ((link σ (σ.prev w) (σ.next w)).next y) = true)
-    (h7 : (link σ (σ.prev w) (σ.next w)).prev y ≠ w) :
+    (h7 : (link σ (σ.prev w) (σ.next w)).prev y ≠ w)
+    (hlinked : (link σ (σ.prev w) (σ.next w)).next y ≠ y) :
     baseAssignMove σ w y = .ok (assignMoveS σ w y) := by
   simp only [baseAssignMove, hne, ite_false, detach_eq h1 h3 h4, bind, Except.bind, assignMoveS]
   generalize hτ : link σ (σ.prev w) (σ.next w) = τ at *
   have hl : τ.live = σ.live := by rw [← hτ]; rfl
-  simp only [rdPrev, rdNext, wrPrev, wrNext, hl, h1, h2, ite_true, Store.setPrev, Store.setNext]
+  simp only [rdPrev, rdNext, wrPrev, wrNext, hl, h1, h2, ite_true, hlinked, ite_false, Store.setPrev, Store.setNext]
   rw [attach_eq (by simp [hl, h1]) (by simp [hl, h5]) (by simp [hl, h6, Ne.symm hne]) (by simp [hl, h2]) (by simp [h7])]
   simp [takeS', takeS, link, Store.setPrev, Store.setNext, Ne.symm hne]
   store_eq
+
+/-- `w = std::move(y)` when `y` is unlinked once `w` has left its ring: `w` ends up unlinked, as after `unlink()` -/
+theorem baseAssignMove_alone {σ : Store} {w y : Node} (hne : y ≠ w)
+    (h1 : σ.live w = true) (h2 : σ.live y = true) (h3 : σ.live (σ.next w) = true) (h4 : σ.live (σ.prev w) = true)
+    (halone : (link σ (σ.prev w) (σ.next w)).next y = y) :
+    baseAssignMove σ w y = .ok (unlinkS σ w) := by
+  simp only [baseAssignMove, hne, ite_false, detach_eq h1 h3 h4, bind, Except.bind, unlinkS]
+  generalize hτ : link σ (σ.prev w) (σ.next w) = τ at *
+  have hl : τ.live = σ.live := by rw [← hτ]; rfl
+  simp only [rdNext, wrPrev, wrNext, hl, h1, h2, ite_true, halone, Store.setPrev, Store.setNext]
+  simp [link, Store.setPrev, Store.setNext, hl]
 
 end Fcppt.C11
